@@ -4,13 +4,13 @@ from Coq itself with `Check`) and closes them by `exact`, followed by Print Assu
 The hand-written header comment and the Examples come from tools/props_spec.py."""
 import subprocess, re, sys, os
 sys.path.insert(0, os.path.dirname(__file__))
-from props_spec import SPEC, IMPORTS
+from props_spec import SPEC, IMPORTS, imports_for, imports_all
 
 COQ = "/verif/coq"
 
 def check_types(names):
     tmp = os.path.join(COQ, "props", "_check_tmp.v")
-    open(tmp, "w").write(IMPORTS + "\nSet Printing Width 1000000.\nSet Printing Depth 100000.\n" + "".join(f"Check {n}.\n" for n in names))
+    open(tmp, "w").write(imports_all() + "\nSet Printing Width 1000000.\nSet Printing Depth 100000.\n" + "".join(f"Check {n}.\n" for n in names))
     p = subprocess.run(["coqc", "-Q", "theories", "BB", tmp], capture_output=True, text=True, cwd=COQ, timeout=900)
     for ext in (".v", ".vo", ".glob", ".vok", ".vos"):
         try:
@@ -46,7 +46,7 @@ def main():
         lines = [f"(* {pid} -- {spec['title']}", ""]
         lines += ["   " + l for l in spec["comment"].strip().splitlines()]
         lines += ["", "   This file contains only restatements closed by `exact` (statements produced by Coq's own",
-                  "   `Check` of the library lemma) plus non-vacuity Examples, each followed by Print Assumptions. *)", IMPORTS, ""]
+                  "   `Check` of the library lemma) plus non-vacuity Examples, each followed by Print Assumptions. *)", imports_for(pid), ""]
         for (name, lemma, note) in spec["theorems"]:
             if note:
                 lines.append(f"(* {note} *)")
